@@ -52,6 +52,14 @@ def addEdge (g : G) (a b : Int) : Except Err G :=
 def removeNode (g : G) (l : Int) : G :=
   (g.filter (·.label != l)).map fun n => { n with preds := n.preds.erase l, succs := n.succs.erase l }
 
+/-- `a.remove_successor(b); b.remove_predecessor(a)`: the two node-level calls that take an edge out (each is a no-op
+when the other node is not a neighbour). -/
+def unlinkNode (a b : Int) (n : GNode) : GNode :=
+  let n1 := if n.label = a then { n with succs := n.succs.erase b } else n
+  if n.label = b then { n1 with preds := n1.preds.erase a } else n1
+
+def unlink (g : G) (a b : Int) : G := g.map (unlinkNode a b)
+
 /-- `network.reindex_nodes(old_to_new)`. -/
 def reindex (g : G) (π : Int → Int) : G :=
   g.map fun n => ⟨π n.label, n.preds.map π, n.succs.map π⟩
@@ -84,6 +92,7 @@ inductive Op where
   | addPred (b a : Int)
   | removeNode (l : Int)
   | reindex (m : List (Int × Int))
+  | unlink (a b : Int)
 deriving Repr
 
 def applyMap (m : List (Int × Int)) (l : Int) : Int := match m.find? (·.1 == l) with | some p => p.2 | none => l
@@ -96,6 +105,7 @@ def apply (g : G) : Op → G × Bool
   | .addPred b a => if b ∈ labels g then (addPred g b a, true) else (g, false)
   | .removeNode l => (removeNode g l, true)
   | .reindex m => (reindex g (applyMap m), true)
+  | .unlink a b => (unlink g a b, true)
 
 /-! ### echelon / local base-stock level conversion on a serial system (downstream-most stage first) -/
 
